@@ -177,7 +177,8 @@ pub fn judge_variant(base: &AG, v: &Variant, wd: &Workdir, rep: &mut Rep) {
     let raw_text = base.strip_meta().text();
     let ann_text = v.ann.text();
     let raw_spec = SetSpec::raw(v.tt);
-    let ann_spec = SetSpec { glr: v.glr, table: Some(v.tt), ps: Some(v.ps), pse: Some(v.pse), ..Default::default() };
+    // half of the LR variants choose the algorithm the way rcomp does: explicitly and after the shift preferences
+    let ann_spec = SetSpec { glr: v.glr, table: Some(v.tt), ps: Some(v.ps), pse: Some(v.pse), algo_last: !v.glr && fnv(&ann_text) % 2 == 0, ..Default::default() };
     let case = |extra: Value| json!({"grammar": ann_text, "ag": v.ann.to_json(), "settings": ann_spec.to_json(), "extra": extra});
     let sig = |k: &str| format!("{}:{}:{}", k, fnv(&ann_text), fnv(&ann_spec.to_json().to_string()));
     crate::rep::watchdog::set(|| case(json!(null)).to_string());
